@@ -58,14 +58,17 @@ variable (P : Params F E)
 
 theorem recordState_eq (w : World F E) (er : Nat) (esc : Dict E) (f : Factor) :
     recordState w er esc f = w.setE er (pRecordState (w.ecells er) esc f) := by
-  unfold recordState pRecordState
+  unfold recordState pRecordState pRecordAdd
   cases esc f with
-  | none => simp [setE_self]
+  | none => simp [pRecordApply, setE_self]
   | some v =>
     simp only
     cases w.ecells er f with
-    | some u => simp [setE_self]
+    | some u => simp [pRecordApply, setE_self]
     | none => rfl
+
+theorem pRecordState_def (cell esc : Dict E) (f : Factor) :
+    pRecordApply cell f (pRecordAdd cell esc f) = pRecordState cell esc f := rfl
 
 theorem encodeFactor_lift (d : Data) (kept : List Nat) (cache : Dict (List (String × F))) (er : Nat)
     (st : EncSt F E) (fr : Factor × Bool) :
@@ -79,7 +82,7 @@ theorem encodeFactor_lift (d : Data) (kept : List Nat) (cache : Dict (List (Stri
     cases cache fr.1 with
     | none => simp [setE_self]
     | some fits =>
-      simp only [recordState_eq]
+      simp only [recordState_eq, pRecordState_def]
       cases ec.1 fr.1 fr.2 with
       | some enc => rfl
       | none => simp only [setE_setE, setE_ecells_self]; rfl
